@@ -21,11 +21,23 @@ import (
 	"fmt"
 	"math/rand"
 	"net"
+	"os"
+	"runtime"
 	"strings"
 	"time"
 
 	"github.com/mochi-mqtt/server/v2/packets"
 )
+
+// dumpStacks writes every goroutine's stack to stderr (VERIF_DUMP_ON_TIMEOUT=1): which handler is stuck where.
+func dumpStacks(why string) {
+	if os.Getenv("VERIF_DUMP_ON_TIMEOUT") == "" {
+		return
+	}
+	buf := make([]byte, 1<<20)
+	n := runtime.Stack(buf, true)
+	fmt.Fprintf(os.Stderr, "==== %s ====\n%s\n", why, buf[:n])
+}
 
 // rdFrames: end offsets of the complete frames at the head of b and how many of them are PINGREQs (0xC0).
 func rdFrames(b []byte) (end int, pings int, count int) {
@@ -184,6 +196,7 @@ func (b *bkState) feedRaw(c *bkConn, bytes []byte) string {
 		write(tail)
 	}
 	if !b.settle() {
+		dumpStacks("timeout-settle in feedRaw")
 		return "timeout-settle"
 	}
 	c.mu.Lock()
@@ -395,7 +408,12 @@ func init() {
 							refConn = 0
 						}
 						for j, q := 0, r.Intn(3)/2*(1+r.Intn(2)); j < q; j++ {
-							raw = append(raw, rdValid(r, hostileVer)...)
+							v := rdValid(r, hostileVer)
+							raw = append(raw, v...)
+							if v[0] == 0xE0 {
+								hostile = 0
+								break
+							}
 						}
 					case m < 8: // damaged CONNECT
 						raw = damage(r, connectBytes(r, hostileVer, id, r.Intn(2) == 0, pick(r, []string{"", "will"})))
@@ -445,7 +463,12 @@ func init() {
 						}
 						switch {
 						case m < 4:
-							raw = append(raw, rdValid(r, hostileVer)...)
+							v := rdValid(r, hostileVer)
+							if v[0] == 0xE0 { // DISCONNECT ends the connection
+								fatal = true
+								j = items
+							}
+							raw = append(raw, v...)
 						case m < 6: // publishes that reach the reference client
 							raw = append(raw, buildClientPacket(hostileVer, []string{"PUBLISH", fmt.Sprintf("q=%d", r.Intn(3)), fmt.Sprintf("id=%d", 1+r.Intn(5)),
 								"t=" + hs("r/t"), "p=" + hs(fmt.Sprintf("h%d", done)), pick(r, []string{"", "", "r=1"})})...)
@@ -472,7 +495,7 @@ func init() {
 						}
 					}
 					emitRaw("bk.raw", hostile, raw)
-					if fatal && r.Intn(4) > 0 {
+					if fatal && r.Intn(8) > 0 {
 						hostile = 0
 					}
 				case k < 16:
